@@ -88,6 +88,9 @@ pub struct Connection {
     
     /// Client name (set via CLIENT SETNAME)
     pub name: Option<String>,
+    
+    /// Frames read behind a blocking command that blocked: executed once the client is unblocked
+    pub deferred_frames: Vec<RespFrame>,
 }
 
 impl Connection {
@@ -115,6 +118,7 @@ impl Connection {
             transaction_state: TransactionState::default(),
             is_monitoring: false,
             name: None,
+            deferred_frames: Vec::new(),
         })
     }
     
